@@ -63,7 +63,8 @@ pub enum Event {
     RunStart { max_instr: u64 },
     RunEnd { ok: bool },
     /// about to execute the instruction at `ip`; `depth` = nesting of `_run` (1 = top level)
-    Instr { ip: u32, op: u8, depth: u32, stack_h: u32, call_h: u32 },
+    /// `frame_off` = value-stack offset of the top call frame
+    Instr { ip: u32, op: u8, depth: u32, stack_h: u32, call_h: u32, frame_off: u32 },
     /// run_function: a host function re-enters the interpreter
     Reenter { stack_h: u32, call_h: u32 },
     ReenterEnd { stack_h: u32, call_h: u32, ok: bool },
